@@ -109,6 +109,15 @@ def collect(run, results, mine, w_args, menu_fn, ignore=(), part=None):
             run.fail("distinct identifiers are stored at the same address :: %s" % (st[0][0][0],),
                      dict(aliasing=st), dict(harness="alias", what=st, clauses=["alias"]))
             continue
+        if isinstance(recs, str) and recs == "LEARN":
+            what, extra = st
+            run.oblige(False)
+            run.fail("a plain call on an empty store fails or leaves other files than it should :: %s%r :: %s" % (
+                what["api"], tuple("..." if isinstance(a, str) and len(a) > 40 else a for a in what["args"]),
+                what["outcome"].split(":")[0]), dict(call=what),
+                dict(harness="learn", what=what, contents=[c.decode("latin1") for c in extra["contents"]],
+                     clauses=["learn"], part=part))
+            continue
         run.add_stats(st)
         for r in recs:
             run.reach[r["res"]] += 1
@@ -128,11 +137,15 @@ def collect(run, results, mine, w_args, menu_fn, ignore=(), part=None):
 
 def make_replayer(w_args, menu_fn, kernels_fn=None):
     def replay(payload):
+        if payload.get("harness") == "two-stores":
+            return replay_two_stores(payload)
         if payload.get("harness") == "xh":
             from engine import xh
             return xh.replay_kernel(kernels_fn(), payload)
         if payload.get("harness") == "alias":
             return step.alias_native(payload["what"])
+        if payload.get("harness") == "learn":
+            return step.learn_native(payload["what"], [c.encode("latin1") for c in payload["contents"]])
         return step.replay_native(w_args, menu_fn, payload["vals"], payload["clauses"])
     return replay
 
@@ -148,3 +161,141 @@ def make_multi_replayer(parts, kernels_fn=None):
 def big_bytes(n, tail=b""):
     """n bytes of every value (CR, LF, NUL and non-UTF-8 sequences included) ending in `tail`"""
     return bytes((i * 7 + i // 251) % 256 for i in range(n - len(tail))) + tail
+
+
+# ---------------------------------------------------------------------------------------- several stores, one process
+STORE_ALGOS5 = ["MD5", "SHA-1", "SHA-256", "SHA-384", "SHA-512"]
+
+
+def two_stores_script(M, M2, mk_root, put, algo_a, algo_b):
+    """One process (module M) works with store X (algorithm A) and then with store Y (algorithm B) under the same
+    identifier; afterwards another process (a fresh copy M2 of the module) opens Y.  Returns a list of failures."""
+    pid, other = "doi:10.5063/shared-id", "doi:10.5063/other-id"
+    c1, c2, c3 = b"first \r\n\x00 content", b"second \xe9 content", b"third content"
+    bad = []
+
+    def props(root, algo):
+        return dict(store_path=root, store_depth=3, store_width=2, store_algorithm=algo, store_metadata_namespace="ns")
+    x = M.FileHashStore(props(mk_root("x"), algo_a))
+    x.store_object(pid, put("c1", c1))
+    x.store_metadata(pid, put("d1", b"<x/>"))
+    for k in range(3):
+        x.retrieve_object(pid).close()
+    y = M.FileHashStore(props(mk_root("y"), algo_b))
+    try:
+        om = y.store_object(pid, put("c2", c2))
+        if om.cid != hashlib.new(D1(algo_b), c2).hexdigest():
+            bad.append(("second-store:cid-not-digest-under-its-algorithm", om.cid))
+        y.store_metadata(pid, put("d2", b"<y/>"))
+        y.store_object(other, put("c2", c2))
+    except Exception as e:   # noqa
+        bad.append(("second-store:call-failed", type(e).__name__))
+        return bad
+    # another process opens Y
+    y2 = M2.FileHashStore(props(mk_root("y"), algo_b))
+    try:
+        st = y2.retrieve_object(pid)
+        try:
+            if st.read() != c2:
+                bad.append(("later-process:retrieved-bytes-differ-from-stored", ""))
+        finally:
+            st.close()
+    except Exception as e:   # noqa
+        bad.append(("later-process:stored-object-not-retrievable", type(e).__name__))
+    try:
+        st = y2.retrieve_metadata(pid)
+        try:
+            if st.read() != b"<y/>":
+                bad.append(("later-process:metadata-differs", ""))
+        finally:
+            st.close()
+    except Exception as e:   # noqa
+        bad.append(("later-process:metadata-not-retrievable", type(e).__name__))
+    try:
+        y2.store_object(pid, put("c3", c3))
+        bad.append(("later-process:bound-pid-accepted-again", ""))
+    except Exception as e:   # noqa
+        if type(e).__name__ not in ("HashStoreRefsAlreadyExists", "PidRefsAlreadyExistsError"):
+            bad.append(("later-process:bound-pid-refused-with-another-error", type(e).__name__))
+    try:
+        y2.delete_object(pid)
+        st = y2.retrieve_object(other)
+        try:
+            if st.read() != c2:
+                bad.append(("later-process:other-pid-lost-its-object", ""))
+        finally:
+            st.close()
+    except Exception as e:   # noqa
+        bad.append(("later-process:delete-or-other-pid-failed", type(e).__name__))
+    return bad
+
+
+def D1(algo):
+    from engine.universe import D1ALGO
+    return D1ALGO[algo]
+
+
+def two_stores(run, prop, mine_prefixes):
+    """all ordered pairs of store algorithms, chosen by the solver; model file system; native replay"""
+    import z3
+    from engine import symfs
+    from engine.pathsym import PathSym, par_explore
+    AV, BV = z3.Int("algo_first_store"), z3.Int("algo_second_store")
+
+    def worker(a):
+        shim = symfs.Shim()
+        ps = PathSym([AV == a, BV >= 0, BV < len(STORE_ALGOS5)])
+
+        def one(p):
+            # two fresh copies of the module per pair: "this process" and "another process"
+            M, M2 = loader.load("filehashstore.py"), loader.load("filehashstore.py")
+            shim.install(M)
+            shim.install(M2)
+            b = p.choose(BV, 0, len(STORE_ALGOS5))
+            F = symfs.FS(symfs.ModelBackend())
+            F.b.dirs["/src"] = True
+            F.b.dirs["/tmp"] = True
+            shim.fs = F
+            put = lambda name, data: (F.b.create("/src/" + name, data), "/src/" + name)[1]
+            try:
+                bad = two_stores_script(M, M2, lambda n: "/st_" + n, put, STORE_ALGOS5[a], STORE_ALGOS5[b])
+            except symfs.Crash:
+                raise
+            except Exception as e:   # noqa
+                bad = [("first-store:call-failed", type(e).__name__ + ": " + str(e)[:80])]
+            return dict(a=a, b=b, bad=bad)
+        return ps.explore(one), ps.st.as_dict()
+    for recs, st in par_explore(worker, list(range(len(STORE_ALGOS5)))):
+        run.add_stats(st)
+        for r in recs:
+            mine = [x for x in r["bad"] if any(x[0].split(":", 1)[1].startswith(m) for m in mine_prefixes)]
+            run.case(("two stores", r["a"], r["b"]), dict(first_store=STORE_ALGOS5[r["a"]], second_store=STORE_ALGOS5[r["b"]]))
+            run.oblige(not mine)
+            run.reach["two-stores-ok" if not r["bad"] else "two-stores-differ"] += 1
+            if mine:
+                run.fail("one process, store X (%s) then store Y (%s) under one identifier; another process opens Y :: %s" % (
+                    "algorithm A", "algorithm B" if r["a"] != r["b"] else "same algorithm", "+".join(sorted(set(x[0] for x in mine)))),
+                    dict(first=STORE_ALGOS5[r["a"]], second=STORE_ALGOS5[r["b"]], failing=r["bad"]),
+                    dict(harness="two-stores", a=r["a"], b=r["b"], clauses=sorted(set(x[0] for x in mine))))
+
+
+def replay_two_stores(payload):
+    import logging
+    import shutil
+    from engine.universe import scratch_root
+    logging.disable(logging.CRITICAL)
+    MN, MN2 = loader.load("filehashstore.py"), loader.load("filehashstore.py")
+    root = scratch_root()
+    try:
+        os.makedirs(root + "/src")
+
+        def put(name, data):
+            with open(root + "/src/" + name, "wb") as fh:
+                fh.write(data)
+            return root + "/src/" + name
+        bad = two_stores_script(MN, MN2, lambda n: root + "/st_" + n, put, STORE_ALGOS5[payload["a"]], STORE_ALGOS5[payload["b"]])
+        hit = [x for x in bad if x[0] in payload["clauses"]]
+        return bool(hit), ("native run (two unpatched copies of the module standing for two processes, real file system): "
+                           "first store %s, second store %s: %s" % (STORE_ALGOS5[payload["a"]], STORE_ALGOS5[payload["b"]], bad))
+    finally:
+        shutil.rmtree(root, ignore_errors=True)
